@@ -88,11 +88,11 @@ def streamLoop {I D P R E : Type} [DecidableEq I] (cfg : StreamCfg) (mk : D → 
 
 /-! ### JSON lines: `JsonfileReader.__iter__` -/
 
-inductive JsonLine (R E : Type) where
-  | record (r : R)          -- a flow.record JSON object
-  | descriptor              -- a descriptor line: skipped
-  | plain (r : Except E R)  -- any other JSON object: a `json/record` is built from it (may raise)
-  | bad (e : E)             -- not JSON
+inductive JsonLine (I R E : Type) where
+  | record (id : I) (r : R)   -- a flow.record JSON object; `id`: its `_recorddescriptor`
+  | descriptor (id : I)       -- a descriptor line: registered, not yielded
+  | plain (r : Except E R)    -- any other JSON object: a `json/record` is built from it (may raise)
+  | bad (e : E)               -- not JSON
   deriving Repr
 
 structure JsonCfg where
@@ -100,13 +100,17 @@ structure JsonCfg where
   guardFallback : Bool
   deriving Repr, DecidableEq
 
-def jsonLoop {R E : Type} (cfg : JsonCfg) (sel : Option (Matcher R E)) : List (JsonLine R E) → Run R E
-  | [] => Run.done
-  | .record r :: t => emit cfg.guardRecord sel r (jsonLoop cfg sel t)
-  | .descriptor :: t => jsonLoop cfg sel t
-  | .plain (.ok r) :: t => emit cfg.guardFallback sel r (jsonLoop cfg sel t)
-  | .plain (.error e) :: _ => Run.fail e
-  | .bad e :: _ => Run.fail e
+/-- `reg`: the descriptors the JSON packer has seen (`unpack` registers them); a record line whose descriptor is
+    unknown raises `notFound`. -/
+def jsonLoop {I R E : Type} [DecidableEq I] (cfg : JsonCfg) (notFound : E) (sel : Option (Matcher R E)) :
+    List I → List (JsonLine I R E) → Run R E
+  | _, [] => Run.done
+  | reg, .record i r :: t =>
+    if reg.contains i then emit cfg.guardRecord sel r (jsonLoop cfg notFound sel reg t) else Run.fail notFound
+  | reg, .descriptor i :: t => jsonLoop cfg notFound sel (i :: reg) t
+  | reg, .plain (.ok r) :: t => emit cfg.guardFallback sel r (jsonLoop cfg notFound sel reg t)
+  | _, .plain (.error e) :: _ => Run.fail e
+  | _, .bad e :: _ => Run.fail e
 
 /-! ### Avro, CSV, SQLite: `for x in items: rec = make(x); if admitted: yield rec` -/
 
@@ -161,7 +165,7 @@ def genCfg : Cfg where
 /-- An input of one of the five readers. -/
 inductive Src (I D P X R E : Type) where
   | stream (frames : List (Frame I D P E))
-  | json (lines : List (JsonLine R E))
+  | json (lines : List (JsonLine I R E))
   | avro (objs : List X)
   | csv (rows : List X)
   | sqlite (tables : List (List (List X)))
@@ -177,7 +181,7 @@ structure Decoders (D P X R E : Type) where
 def read {I D P X R E : Type} [DecidableEq I] (cfg : Cfg) (dec : Decoders D P X R E)
     (sel : Option (Matcher R E)) : Src I D P X R E → Run R E
   | .stream fs => streamLoop cfg.stream dec.ofFrame dec.notFound dec.badHeader sel [] fs
-  | .json ls => jsonLoop cfg.json sel ls
+  | .json ls => jsonLoop cfg.json dec.notFound sel [] ls
   | .avro xs => mapLoop cfg.avroGuarded dec.ofAvro sel xs
   | .csv xs => mapLoop cfg.csvGuarded dec.ofCsv sel xs
   | .sqlite ts => sqliteLoop cfg.sqliteGuarded dec.ofSqlite sel ts
